@@ -26,10 +26,10 @@ def case_strategy(draw, name):
   d = m['desc']['d']
   integral = draw(st.booleans())
   npts = draw(st.integers(2, 8))
-  dtype = draw(st.sampled_from(['int64', 'int32', 'int16', 'uint8', 'uint16', 'uint32', 'uint64', 'bool', 'float32']))
+  dtype = draw(st.sampled_from(['int64', 'int32', 'int16', 'uint8', 'uint16', 'uint32', 'uint64', 'bool', 'float32', 'float16']))
   if integral and dtype == 'bool':
     pool = [[float(draw(st.integers(0, 1))) for _ in range(d)] for _ in range(npts)]
-  elif integral and dtype.startswith('u'):
+  elif integral and (dtype.startswith('u') or dtype == 'float16'):
     pool = [[float(draw(st.integers(0, 200))) for _ in range(d)] for _ in range(npts)]
   elif integral:
     pool = [[float(draw(st.integers(-1000, 1000))) for _ in range(d)] for _ in range(npts)]
